@@ -19,7 +19,9 @@ Keywords == {"module", "struct", "interface", "enum", "custom", "typealias", "Re
              "stream", "tag", "unchecked", "bool", "int32", "varuint62", "float64", "string"}
 Punct == {"{", "}", "(", ")", "[", "]", "[[", "]]", "<", ">", ",", ":", "::", "=", "?", "->", "-", "#"}
 Literals == {"Foo", "x", "<escaped-keyword>", "0", "5", "-1", "0x10", "<huge-int>", "<string>", "<empty-string>", "<unterminated-string>", "<doc>",
-             "<line-comment>", "<block-comment>", "<unterminated-block-comment>", "<pp-if>", "<pp-endif>", "<pp-define>", "<pp-else>", "<pp-bogus>"}
+             "<line-comment>", "<block-comment>", "<unterminated-block-comment>", "<pp-if>", "<pp-endif>", "<pp-define>", "<pp-else>", "<pp-bogus>",
+             \* directives that hold a letter outside ASCII, a digit first, a lone operator
+             "<pp-define-accent>", "<pp-if-accent>", "<pp-undef-greek>", "<pp-if-digit>", "<pp-if-amp>", "<pp-elif-accent>"}
 Exotic == {"<nul>", "<bom>", "<cr>", "<crlf>", "<nbsp>", "<emoji>", "<u3000>", "@", "<backslash>", "$", "'", ";", ".", "|"}
 Tokens == Keywords \cup Punct \cup Literals \cup Exotic
 Contexts == {"bare", "aftermodule", "structbody", "params", "attr", "typepos", "enumbody", "doc"}
